@@ -56,6 +56,14 @@ func (e *Env) deferStmt(s *ast.DeferStmt) {
 			site.fn = fo
 		}
 	}
+	if fl, ok := ast.Unparen(x.Fun).(*ast.FuncLit); ok && len(x.Args) == 0 && fl.Type.Params.NumFields() == 0 && (fl.Type.Results == nil || fl.Type.Results.NumFields() == 0) {
+		site.lit = fl
+		e.assign(site.armed, SBool, True)
+		e.defers = append(e.defers, site)
+		e.mayArmed[site] = true
+		e.deferInit = append(e.deferInit, site.armed)
+		return
+	}
 	if site.fn == nil {
 		e.errorf("%s: unsupported deferred call %s", e.w.pos(s.Pos()), exprString(x.Fun))
 		return
@@ -109,7 +117,11 @@ func (e *Env) runDefers() {
 		e.curCallArgs = d.argExprs
 		savedFC := e.forceClass
 		e.forceClass = -1
-		e.invoke(d.fn, rv, d.args, d.call.Pos(), nil)
+		if d.lit != nil {
+			e.inlineLit(d.call, d.lit)
+		} else {
+			e.invoke(d.fn, rv, d.args, d.call.Pos(), nil)
+		}
 		e.forceClass = savedFC
 		e.curCallArgs = nil
 		e.mayArmed = savedArmed
@@ -593,7 +605,7 @@ func (e *Env) noteMemWrite(ref *Term) {
 
 func (e *Env) assertFrame(detail string, descr, pos string) {
 	name := e.short + "#frame." + detail + e.pathTag
-	ob := &Obligation{Name: name, Tags: []string{homeProp(e.key)}, Func: e.short, Kind: "frame", Descr: descr, Pos: pos}
+	ob := &Obligation{Name: name, Tags: append([]string{}, homeProps(e.key)...), Func: e.short, Kind: "frame", Descr: descr, Pos: pos}
 	if p := pkgOfKey(e.key); strings.HasSuffix(p, "/internal/buffer") || strings.HasSuffix(p, "/builder") {
 		ob.Tags = append(ob.Tags, "C13")
 	}
